@@ -310,7 +310,11 @@ def _apply_knobs(plan: dict):
 
         used = {op[1] for th in plan["threads"] for op in th}
         used_groups = {g for g, names in pool.GROUPS.items() if used & set(names)}
+        import dataclasses as _dc
+
         others = [t for g in sorted(pool.GROUPS) if g not in used_groups for t in pool.GROUPS[g]]
+        # dataclasses first: per-class memos are the ones that fill up
+        others.sort(key=lambda t: not (isinstance(pool.TYPES[t], type) and _dc.is_dataclass(pool.TYPES[t])))
         for t in others[:n]:
             for fn in (apischema.deserialization_method, apischema.serialization_method):
                 try:
